@@ -710,7 +710,8 @@ def runs_every_molecule(ck, rel, clsname, rule, allow_filter=None):
         ok = flow.valid(sup[0][2]) and [u(a) for a in sup[0][0].args] == [param_names(rs)[1]] and 'Processor' in bases
         how = 'super().run_system({}) under {}'.format(', '.join(u(a) for a in sup[0][0].args), flow.show(sup[0][2])[:60])
     else:
-        lps = [l for l in ast.walk(rs) if isinstance(l, ast.For) and (u(l.iter).endswith('.molecules') or u(l.iter).endswith('.molecules)'))]
+        sysname = param_names(rs)[1] if len(param_names(rs)) > 1 else 'system'
+        lps = [l for l in ast.walk(rs) if isinstance(l, ast.For) and u(l.iter) in ('{}.molecules'.format(sysname), 'enumerate({}.molecules)'.format(sysname), 'list({}.molecules)'.format(sysname))]
         if len(lps) == 1:
             calls = calls_with_env(rs, lambda c: u(c.func) in ('self.run_molecule',), stmts=lps[0].body)
             ok = len(calls) == 1 and (flow.valid(calls[0][2]) or (allow_filter is not None and allow_filter(calls[0][2]))) and \
@@ -895,3 +896,40 @@ def residue_identity(ck, rels, rule='KEY-residue-identity'):
                 'two residues that differ only in {} become one'.format(sorted(set(RESIDUE_IDENTITY) - set(val or ())))),
                 key='{}|{}|{}'.format(rule, rel, module.qualname_of(caller) if caller is not None else '<module>'))
     ck.extra['residue_key_calls'] = n
+
+
+# ----------------------------------------------------------------------------------------------------------------------
+def residue_graph_rules(ck, rule):
+    """graph_utils.make_residue_graph: every residue node keeps its own sub-graph of atoms under 'graph'; only attributes all its atoms share are
+    copied up, never an atom-level 'graph' attribute (the beads DoMapping produces carry one)."""
+    gu = ck.index.mod('vermouth/graph_utils.py')
+    mrg = gu.func('make_residue_graph')
+    icv = gu.func('_items_with_common_values')
+    for f_ in (mrg, icv):
+        ck.analysed(gu, f_)
+    calls = [c for c in walk_local(mrg) if isinstance(c, ast.Call) and call_name(c) == '_items_with_common_values']
+    ok = len(calls) == 1 and u(calls[0].args[0]) == "res_node['graph']" and try_fold(kwarg(calls[0], 'excluded_keys'), default=None) in (['graph'], ('graph',)) and \
+        'res_node.update(' in u(mrg) and "res_graph = partition_graph(graph, residue_idxs.values())" in u(mrg)
+    ck.ob(rule, gu.loc(mrg), ok, 'make_residue_graph copies onto a residue the attributes common to its atoms, except `graph` (which holds the residue\'s own atoms)', key=rule + '|residue-graph|exclude')
+    lp = [l for l in icv.body if isinstance(l, ast.For) and u(l.iter) == 'nodes']
+    ok = len(lp) == 1
+    if ok:
+        apps = stmts_with_env(icv, lambda s_: isinstance(s_, ast.Expr) and call_attr(s_.value) == 'append' and u(s_.value.func.value).startswith('common_attrs['), stmts=lp[0].body)
+        ok = len(apps) == 1
+        if ok:
+            ats = list(flow.atoms_of(apps[0][1]))
+            ok = len(ats) == 1 and ats[0][0] == 'In' and ats[0][2] == 'excluded_keys' and flow.equivalent(apps[0][1], ('not', ('atom', ats[0])))[0]
+        fin = [v for v in assignments_to(icv, 'common_attrs') if isinstance(v, ast.DictComp)]
+        if ok and len(fin) == 1:
+            f_ = flow.AND(*[flow.to_formula(c) for c in fin[0].generators[0].ifs])
+            names_ = {}
+            for a in flow.atoms_of(f_):
+                if a[0] == 'Eq' and set(a[1:]) == {'len(nodes)', 'len(vals)'}:
+                    names_[a] = 'ALLHAVE'
+                elif a[0] == 'truth' and a[1] == 'are_all_equal(vals)':
+                    names_[a] = 'EQUAL'
+            ok = len(names_) == len(flow.atoms_of(f_)) == 2 and flow.equivalent(flow.rename(f_, names_), flow.parse_formula('ALLHAVE and EQUAL'))[0]
+        else:
+            ok = False
+    ck.ob(rule, gu.loc(icv), ok, '_items_with_common_values examines every attribute of every node the same way: an excluded key is skipped for each node (also when there is only one), '
+          'and a key counts as common only when all nodes have it with equal values', key=rule + '|residue-graph|common-values')
